@@ -54,12 +54,14 @@ Definition outcome_eqb (a b : outcome) : bool :=
       (r_start r =? r_start r') && (r_end r =? r_end r') && optz_eqb (r_min_ts r) (r_min_ts r')
       && optz_eqb (r_max_ts r) (r_max_ts r')
   | Reject e, Reject e' => err_eqb e e'
+  | PanicDepthUnderflow, PanicDepthUnderflow => true
   | _, _ => false
   end.
 
-Inductive anytx := T1 (t : tx_v1) | T2 (t : tx_v2).
+(* T1P: validate_preview_intent_v1 on the same summary (payload length and signer count are ignored) *)
+Inductive anytx := T1 (t : tx_v1) | T1P (t : tx_v1) | T2 (t : tx_v2).
 Definition run (c : config) (net : option N) (t : anytx) : outcome :=
-  match t with T1 t => validate_v1 c net t | T2 t => validate_v2 c net t end.
+  match t with T1 t => validate_v1 c net t | T1P t => validate_preview_v1 c net t | T2 t => validate_v2 c net t end.
 
 (* a case: the configuration read from the real validator, its required network, the summary of the
    transaction handed to the implementation, and the canonicalised result it produced *)
